@@ -295,7 +295,9 @@ def murder_reap_race(n: int, who: int, die: int, h: int, k: int) -> bool:
     if seq[0][1] < h + T * 10 or seq[0][1] > h + T * 10 + 12:
         return False
     live = [p for p in K.order if K.procs.get(p) == "alive"]
-    return pids[die] not in live and set(arb.WORKERS) == set(live) and not K.zombies()
+    if K.clock_reads > k and pids[die] in live:
+        return False                      # (the scheduled death happened only if the run got as far as clock read k)
+    return set(arb.WORKERS) == set(live) and not K.zombies()
 
 
 def latency_twin(n: int, who: int, h: int, stubborn: bool) -> bool:
